@@ -10,11 +10,13 @@ use splgen::src::{fnv, Src};
 use splgen::text;
 
 /// lexemes that are lexically valid SPL
-const VALID_LEXEMES: [&str; 66] = [
+const VALID_LEXEMES: [&str; 72] = [
     "(", ")", "[", "]", "{", "}", "=", "#", "<", "<=", ">", ">=", ":=", ":", ",", ";", "+", "-", "*", "/", "if",
     "else", "while", "array", "of", "proc", "ref", "type", "var", "int", "main", "x", "iff", "typ", "elsee", "_",
     "_if", "x1", "of_", "0", "7", "42", "007", "2147483647", "0x1F", "0xff", "0x0", "'a'", "'\\n'", "' '", "'/'",
     "// c\n", "var1", "if2", "of3", "proc0", "while9", "'\"'", "'\\'", "0x7fffffff", "0x000000001", "0x00000000000ff", "0x123456789", "99999999999", "4294967295", "0xFFFFFFFF",
+    // case matters: only a lower-case `x` makes a hexadecimal literal, only lower-case keywords are keywords
+    "0X1F", "0Xff", "0X", "IF", "While", "Proc",
 ];
 const VALID_SEPS: [&str; 9] = ["", " ", " ", "\n", "\t", "\r\n", "  ", "\n\n", " \n "];
 const EXH_ALPHABET: [&str; 16] = ["a", "i", "f", "0", "x", "1", "<", "=", ":", "/", "'", " ", "\n", "é", "😀", "\\n"];
